@@ -26,32 +26,141 @@ def StoreWF (st : Store) : Prop :=
 
 theorem get_indep (c1 c2 : Cfg) (s : BState) (hwf : StoreWF s.store)
     (k : Bytes) (hk : Alphabet k) (R : Nat) (hR : R < 2 ^ 64) : doGet c1 s k R = doGet c2 s k R := by
-  sorry
+  obtain ⟨recs, hst, hs, hr⟩ := hwf
+  exact doGet_encodeStore_indep c1 c2 s hst hs hr k hk R hR
 
 theorem create_indep (c1 c2 : Cfg) (h : SameButEngine c1 c2) (h1 : Contractual c1.q) (h2 : Contractual c2.q)
     (s : BState) (hwf : StoreWF s.store) (hd : s.dealt + 1 < 2 ^ 64)
     (k v : Bytes) (hk : Alphabet k) (fs : List Fault) : doCreate c1 s k v fs = doCreate c2 s k v fs := by
-  sorry
+  -- holds on every store, for every key: `h`, `hwf`, `hd`, `hk` are not needed
+  have _ := h; have _ := hwf; have _ := hd; have _ := hk
+  exact doCreate_indep h1 h2 s k v fs
 
 theorem update_indep (c1 c2 : Cfg) (h : SameButEngine c1 c2) (h1 : Contractual c1.q) (h2 : Contractual c2.q)
     (s : BState) (hwf : StoreWF s.store) (hd : s.dealt + 1 < 2 ^ 64)
     (k v : Bytes) (hk : Alphabet k) (e : Nat) (fs : List Fault) :
     doUpdate c1 s k v e fs = doUpdate c2 s k v e fs := by
-  sorry
+  have _ := h; have _ := hd
+  obtain ⟨recs, hst, hs, hr⟩ := hwf
+  refine doUpdate_indep h1 h2 s k v ?_ e fs
+  rw [hst]
+  exact bget_encodeStore_indep c1 c2 hs hr k hk 0 (by decide)
 
 theorem delete_indep (c1 c2 : Cfg) (h : SameButEngine c1 c2) (h1 : Contractual c1.q) (h2 : Contractual c2.q)
     (s : BState) (hwf : StoreWF s.store) (hd : s.dealt + 1 < 2 ^ 64)
     (k : Bytes) (hk : Alphabet k) (e : Nat) (fs : List Fault) :
     doDelete c1 s k e fs = doDelete c2 s k e fs := by
-  sorry
+  have _ := h; have _ := hd
+  obtain ⟨recs, hst, hs, hr⟩ := hwf
+  refine doDelete_indep h1 h2 s k ?_ e fs
+  rw [hst]
+  exact bget_encodeStore_indep c1 c2 hs hr k hk 0 (by decide)
 
-theorem list_indep (c1 c2 : Cfg) (h : SameButEngine c1 c2) (s : BState) (a b : Bytes) (R n : Nat) :
+/-- Range reads: two engines whose reverse iterators honour the end bound on their first element
+(the iterator contract, C11) give the same `List` response — on ANY store and for ANY bounds, whatever
+their other open choices. Without that hypothesis the statement is FALSE (`list_indep_false`):
+`doList` only checks `cmp a b = .lt` on the RAW keys; when `a` is a proper prefix of `b` and the next
+byte of `b` is below the split byte (outside the documented alphabet) the encoded bounds are
+descending, the engine iterates backwards and `revFirstUnchecked` becomes visible. -/
+theorem list_indep (c1 c2 : Cfg) (h : SameButEngine c1 c2)
+    (hr1 : c1.q.revFirstUnchecked = false) (hr2 : c2.q.revFirstUnchecked = false)
+    (s : BState) (a b : Bytes) (R n : Nat) :
     (match doList c1 s a b R n, doList c2 s a b R n with
      | .ok r1, .ok r2 => r1.hdr = r2.hdr ∧ r1.more = r2.more ∧ r1.kvs = r2.kvs
      | .error e1, .error e2 => e1 = e2
      | .panic, .panic => True
      | _, _ => False) := by
-  sorry
+  obtain ⟨hp, _, _, hs, _, _, ht⟩ := h
+  rw [doList_indep_of_rev hp hs ht (by rw [hr1, hr2]) s a b R n]
+  exact listRes_match_self _
+
+/-! #### counterexample to `list_indep` -/
+
+/-- a well-formed store holding one live record of key `(` (below the range asked for) -/
+def cexState : BState :=
+  { ring := Ring.new 1, dealt := 10, committed := 10, store := [(encode [40] 5, [1])] }
+/-- reverse iterator does not bound-check its first element; everything else default -/
+def cexUnchecked : Cfg := { q := { revFirstUnchecked := true } }
+def cexChecked : Cfg := {}
+
+def kvsOf : ScanRes ListRes → Option (List (Bytes × Bytes × Nat))
+  | .ok r => some r.kvs
+  | _ => none
+
+/-- Range `["2", "2\x01")`: the two engines differ only in `revFirstUnchecked`, both are contractual,
+the store is well-formed, and the unchecked one returns a key that is not in the range. -/
+theorem list_indep_counterexample :
+    SameButEngine cexUnchecked cexChecked ∧ Contractual cexUnchecked.q ∧ Contractual cexChecked.q ∧
+    StoreWF cexState.store ∧ cmp [50] [50, 1] = .lt ∧
+    cmp (encode [50] 0) (encode [50, 1] 0) = .gt ∧
+    kvsOf (doList cexUnchecked cexState [50] [50, 1] 0 0) = some [([40], [1], 5)] ∧
+    kvsOf (doList cexChecked cexState [50] [50, 1] 0 0) = some [] ∧
+    kvsOf (doList cexUnchecked cexState [50] [50, 1] 0 3) = some [([40], [1], 5)] ∧
+    kvsOf (doList cexChecked cexState [50] [50, 1] 0 3) = some [] := by
+  refine ⟨⟨rfl, rfl, rfl, rfl, rfl, rfl, rfl⟩, rfl, rfl, ?_, by decide, by decide, by decide, by decide,
+    by decide, by decide⟩
+  exact ⟨[{ key := [40], rev := 5, val := [1], ik := encode [40] 5 }], rfl, by decide, by decide⟩
+
+/-- without the iterator-contract hypotheses the statement of `list_indep` does not hold -/
+theorem list_indep_false :
+    ¬ (∀ (c1 c2 : Cfg) (_ : SameButEngine c1 c2) (s : BState) (a b : Bytes) (R n : Nat),
+        (match doList c1 s a b R n, doList c2 s a b R n with
+         | .ok r1, .ok r2 => r1.hdr = r2.hdr ∧ r1.more = r2.more ∧ r1.kvs = r2.kvs
+         | .error e1, .error e2 => e1 = e2
+         | .panic, .panic => True
+         | _, _ => False)) := by
+  intro H
+  have h := H cexUnchecked cexChecked ⟨rfl, rfl, rfl, rfl, rfl, rfl, rfl⟩ cexState [50] [50, 1] 0 0
+  have e1 : doList cexUnchecked cexState [50] [50, 1] 0 0 =
+      .ok { hdr := 10, more := false, kvs := [([40], [1], 5)] } := by rfl
+  have e2 : doList cexChecked cexState [50] [50, 1] 0 0 = .ok { hdr := 10, more := false, kvs := [] } := by
+    rfl
+  rw [e1, e2] at h
+  simp at h
+
+/-! #### corrected statements -/
+
+/-- Corrected (1): two engines that agree on whether the reverse iterator bound-checks its first
+element give the same range read — on ANY store and for ANY bounds; all other open choices
+(limit mode, conflict shape, index offset, CAS-on-missing) are irrelevant. -/
+theorem list_indep_corrected (c1 c2 : Cfg) (h : SameButEngine c1 c2)
+    (hrev : c1.q.revFirstUnchecked = c2.q.revFirstUnchecked) (s : BState) (a b : Bytes) (R n : Nat) :
+    (match doList c1 s a b R n, doList c2 s a b R n with
+     | .ok r1, .ok r2 => r1.hdr = r2.hdr ∧ r1.more = r2.more ∧ r1.kvs = r2.kvs
+     | .error e1, .error e2 => e1 = e2
+     | .panic, .panic => True
+     | _, _ => False) := by
+  obtain ⟨hp, _, _, hs, _, _, ht⟩ := h
+  rw [doList_indep_of_rev hp hs ht hrev s a b R n]
+  exact listRes_match_self _
+
+/-- Corrected (2): for bounds over the documented alphabet the scan is ascending and NO open choice
+of the engine is visible (single-partition engine; any store). -/
+theorem list_indep_alphabet (c1 c2 : Cfg) (h : SameButEngine c1 c2) (hsplit : c1.splits = [])
+    (s : BState) (a b : Bytes) (ha : Alphabet a) (hb : Alphabet b) (R n : Nat) :
+    (match doList c1 s a b R n, doList c2 s a b R n with
+     | .ok r1, .ok r2 => r1.hdr = r2.hdr ∧ r1.more = r2.more ∧ r1.kvs = r2.kvs
+     | .error e1, .error e2 => e1 = e2
+     | .panic, .panic => True
+     | _, _ => False) := by
+  obtain ⟨hp, _, _, hs, _, _, ht⟩ := h
+  rw [doList_indep_single hp hs ht hsplit s ha hb R n]
+  exact listRes_match_self _
+
+/-- Corrected (2'): the same with any partitioning, provided no adjusted partition runs backwards
+(true of sorted well-formed borders: KB.C13). -/
+theorem list_indep_ascending (c1 c2 : Cfg) (h : SameButEngine c1 c2)
+    (s : BState) (a b : Bytes) (ha : Alphabet a) (hb : Alphabet b)
+    (hasc : ∀ parts, scanPartitions c1 (encode a 0) (encode b 0) = some parts → ∀ p ∈ parts, cmp p.1 p.2 ≠ .gt)
+    (R n : Nat) :
+    (match doList c1 s a b R n, doList c2 s a b R n with
+     | .ok r1, .ok r2 => r1.hdr = r2.hdr ∧ r1.more = r2.more ∧ r1.kvs = r2.kvs
+     | .error e1, .error e2 => e1 = e2
+     | .panic, .panic => True
+     | _, _ => False) := by
+  obtain ⟨hp, _, _, hs, _, _, ht⟩ := h
+  rw [doList_indep_of_ascending hp hs ht s ha hb hasc R n]
+  exact listRes_match_self _
 
 /-- Without the contract the property is FALSE: the pre-fix tikv adapter (compare-and-swap on a
 missing key answers not-found) makes a guarded update of a missing key an RPC error where the other
